@@ -1198,6 +1198,11 @@ def package_evaluator(an, module, V, max_iter=4096, stubs=None):
                         "id": id, "accumulate": lambda xs, *a, **k: tuple(__import__("itertools").accumulate(xs, *a, **k)),
                         "chain": __import__("itertools").chain, "itertools": {"accumulate": lambda xs, *a, **k: tuple(__import__("itertools").accumulate(xs, *a, **k)), "chain": __import__("itertools").chain},
                         "_ParameterKind": {"POSITIONAL_ONLY": 0, "POSITIONAL_OR_KEYWORD": 1, "VAR_POSITIONAL": 2, "KEYWORD_ONLY": 3, "VAR_KEYWORD": 4}})
+    # the CO_* constants of `inspect` on this interpreter (reference table), by name and as attributes of the module
+    co_ = {"CO_" + str(n_): int(v_) for v_, n_ in R.get("COMPILER_FLAG_NAMES", {}).items()}
+    for k_, v_ in co_.items():
+        ev.lib.setdefault(k_, v_)
+    ev.lib.setdefault("inspect", dict(co_))
     ev.lib.update(stubs)
     ev.module_assigns = {}
     for mod in an.prog.modules.values():
